@@ -43,7 +43,13 @@ def build_harness():
         shutil.copy(os.path.join(REPO, "Cargo.lock"), lock)
     env = dict(os.environ, CARGO_NET_OFFLINE="true")
     t0 = time.time()
-    p = subprocess.run(["cargo", "build", "--offline"], cwd=HARNESS, env=env,
+    cmd = ["cargo", "build", "--offline"]
+    src = os.environ.get("CALAMINE_SRC")
+    if src:
+        # mutation testing only: compile a scratch copy of calamine instead of /repo
+        cmd += ["--config", 'paths=["%s"]' % src]
+        log("NOTE: building against scratch copy", src)
+    p = subprocess.run(cmd, cwd=HARNESS, env=env,
                        stdout=subprocess.PIPE, stderr=subprocess.STDOUT, text=True)
     if p.returncode != 0:
         sys.stderr.write(p.stdout[-6000:])
